@@ -1409,6 +1409,9 @@ void factorization_recombination(const lp_upolynomial_t* f, const lp_upolynomial
           for (i = 0; i < sel_size; ++ i) {
             enabled[sel[i]] = 0;
           }
+        } else {
+          // Not a factor, discard the candidate
+          lp_upolynomial_delete(candidate);
         }
       }
     }
